@@ -412,6 +412,8 @@ _c13_prev = EXTRA_CHECKS.get("C13")
 EXTRA_CHECKS["C13"] = (lambda tier="quick", seed=0: (_c13_prev(tier, seed) if _c13_prev else []) + _c13(tier, seed))
 _c20_prev2 = EXTRA_CHECKS.get("C20") or _c20
 EXTRA_CHECKS["C20"] = (lambda tier="quick", seed=0: _c20_prev2(tier, seed) + _c13(tier, seed))
+_c08_prev_cov = EXTRA_CHECKS.get("C08")
+EXTRA_CHECKS["C08"] = (lambda tier="quick", seed=0: (_c08_prev_cov(tier, seed) if _c08_prev_cov else []) + _c13(tier, seed))  # reading coverage from a finished run leaves the run's arrays as they are (two identical runs stay identical)
 _c11_prev = EXTRA_CHECKS.get("C11")
 EXTRA_CHECKS["C11"] = (lambda tier="quick", seed=0: (_c11_prev(tier, seed) if _c11_prev else []) + _c13(tier, seed))  # the reported fraction covered is capacity / number eligible: the count is accumulated in a copy
 EXTRA_CHECKS["C10"] = _c10
